@@ -198,14 +198,14 @@ Notation OK := (ok_fa t4 t6 wa asa).
 Variable cls : list Z.
 Hypothesis Horc : table_bytes orc.
 
-Theorem gen_anonymize_io_refines fuel (f : file_anonymizer) (lines : list str) (outs0 : list pyval) f' outs :
+Theorem gen_anonymize_io_refines_ok fuel (f : file_anonymizer) (lines : list str) (outs0 : list pyval) f' outs :
   OK f -> (io_need orc f lines <= fuel)%nat ->
   TextModel.anonymize_io orc f lines = Done (f', outs) ->
   gen_FileAnonymizer__anonymize_io pc fuel (enc_fa cls f) (VList (map vstr lines)) (VList outs0)
-  = Normal (VTuple [VNone; enc_fa cls f'; VList (outs0 ++ map vstr outs)]).
+  = Normal (VTuple [VNone; enc_fa cls f'; VList (outs0 ++ map vstr outs)]) /\ OK f'.
 Proof.
   unfold gen_FileAnonymizer__anonymize_io. cbn [py_iter PyLib.bind].
-  match goal with |- _ -> _ -> _ -> call (PyLib.bind (PyLib.bindS (py_for _ ?b _) ?K) ?K2) = _ => set (B := b); set (KK := K); set (KK2 := K2) end.
+  match goal with |- _ -> _ -> _ -> call (PyLib.bind (PyLib.bindS (py_for _ ?b _) ?K) ?K2) = _ /\ _ => set (B := b); set (KK := K); set (KK2 := K2) end.
   assert (Hstep : forall g line acc j4 j5 g' out, OK g -> (line_need orc g line <= fuel)%nat -> process_line orc g line = Done (g', out) ->
             B (vstr line) (enc_fa cls g, VList (map vstr lines), VList acc, j4, j5)
             = Normal (enc_fa cls g', VList (map vstr lines), VList (acc ++ [vstr out]), vstr line, vstr out) /\ OK g').
@@ -245,16 +245,22 @@ Proof.
   }
   assert (Hloop : forall ls g acc j4 j5 g' outs', OK g -> (io_need orc g ls <= fuel)%nat -> TextModel.anonymize_io orc g ls = Done (g', outs') ->
             exists j4' j5', py_for (map vstr ls) B (enc_fa cls g, VList (map vstr lines), VList acc, j4, j5)
-                            = Normal (enc_fa cls g', VList (map vstr lines), VList (acc ++ map vstr outs'), j4', j5')).
+                            = Normal (enc_fa cls g', VList (map vstr lines), VList (acc ++ map vstr outs'), j4', j5') /\ OK g').
   { induction ls as [|l ls IH]; intros g acc j4 j5 g' outs' Hok Hneed E; cbn [map py_for TextModel.anonymize_io io_need] in *.
     - injection E as <- <-. rewrite app_nil_r. eauto.
     - destruct (process_line orc g l) as [[g1 o1]|w] eqn:Epl; cbn [obind fst snd] in E; [|discriminate].
       destruct (TextModel.anonymize_io orc g1 ls) as [[g2 os]|w] eqn:Eio; cbn [obind fst snd] in E; [|discriminate]. injection E as <- <-.
       destruct (Hstep g l acc j4 j5 g1 o1 Hok ltac:(lia) Epl) as [Eb Hok1]. rewrite Eb.
-      destruct (IH g1 (acc ++ [vstr o1]) (vstr l) (vstr o1) g2 os Hok1 ltac:(lia) Eio) as (j4' & j5' & El). rewrite El.
-      exists j4', j5'. cbn [map]. rewrite <- app_assoc. reflexivity. }
-  intros Hok Hneed E. destruct (Hloop lines f outs0 VNone VNone f' outs Hok Hneed E) as (j4' & j5' & El). rewrite El. reflexivity.
+      destruct (IH g1 (acc ++ [vstr o1]) (vstr l) (vstr o1) g2 os Hok1 ltac:(lia) Eio) as (j4' & j5' & El & Hok2). rewrite El.
+      exists j4', j5'. cbn [map]. rewrite <- app_assoc. split; [reflexivity|exact Hok2]. }
+  intros Hok Hneed E. destruct (Hloop lines f outs0 VNone VNone f' outs Hok Hneed E) as (j4' & j5' & El & Hok'). rewrite El. split; [reflexivity|exact Hok'].
 Qed.
+Theorem gen_anonymize_io_refines fuel (f : file_anonymizer) (lines : list str) (outs0 : list pyval) f' outs :
+  OK f -> (io_need orc f lines <= fuel)%nat ->
+  TextModel.anonymize_io orc f lines = Done (f', outs) ->
+  gen_FileAnonymizer__anonymize_io pc fuel (enc_fa cls f) (VList (map vstr lines)) (VList outs0)
+  = Normal (VTuple [VNone; enc_fa cls f'; VList (outs0 ++ map vstr outs)]).
+Proof. intros Hok Hneed E. exact (proj1 (gen_anonymize_io_refines_ok fuel f lines outs0 f' outs Hok Hneed E)). Qed.
 End T.
 
 (* the premises are met by any file anonymizer taken with its own IP anonymizers as templates (in particular by what the constructor builds) *)
